@@ -9,7 +9,7 @@ def decode(string):
   return gfapy.ByteArray(string)
 
 def validate_encoded(string):
-  if not re.match(r"^([0-9A-F][0-9A-F])+$", string):
+  if not re.match(r"^([0-9A-F][0-9A-F])+\Z", string):
     raise gfapy.FormatError(
       "{} is not a valid hex string\n".format(repr(string))+
       "(it does not consist of pairs of hex digits [0-9A-F])")
